@@ -629,6 +629,15 @@ func (g *Gen) Rule() map[string]interface{} {
 		"when": map[string]interface{}{"pattern": g.Pattern()},
 	}
 	g.inRule = false
+	if g.R.Intn(12) == 0 {
+		// a when pattern the indexed state's rule index refuses (an array of mixed types): written over an
+		// existing rule, the refusal must leave the old rule exactly as dispatchable as it was
+		k := g.pick(topKeys)
+		if g.P.Index {
+			k = ixKeys[g.R.Intn(len(ixKeys))]
+		}
+		r["when"] = map[string]interface{}{"pattern": map[string]interface{}{k: []interface{}{1.0, "tacos"}}}
+	}
 	if g.R.Intn(2) == 0 {
 		r["action"] = map[string]interface{}{"code": "1"}
 	} else {
